@@ -55,6 +55,9 @@ def build_harness(race=False):
                                 os.path.join(hdir, "cmd", "amverif"))
         else:
             shutil.copytree(HARNESS, hdir)
+        tg = os.environ.get("VERIF_TABLE_GEN")
+        if tg and os.path.exists(tg) and os.path.isdir(os.path.join(hdir, "apidrv")):
+            shutil.copy(tg, os.path.join(hdir, "apidrv", "table_gen.go"))
         gm = open(os.path.join(hdir, "go.mod")).read().replace("=> /repo", "=> " + os.path.abspath(REPO))
         open(os.path.join(hdir, "go.mod"), "w").write(gm)
     # the replace directive of harness/go.mod points at the repo; go.sum is the repo's
